@@ -53,6 +53,48 @@ Section AW.
   Proof. repeat split; reflexivity. Qed.
 End AW.
 
+(* observation wrappers (TransformObservation / Clip / Rescale / Flatten share AbstractPureObservationWrapper) and reward wrappers
+   (TransformReward / ClipReward share AbstractPureTransformRewardWrapper): ONLY the declared signal is post-processed, every other
+   component is the inner environment's on the inner state, for every method of the wrapper *)
+Section OW.
+  Context {S A O : Type}.
+  Variable e : env (ws S) A O.
+  Variable g : O -> O.
+  Variable osp : sp.
+  Notation W := (wrap1 (WObs g osp) e).
+
+  Theorem gen_ow_eq_model s a s' k :
+    e_init W k = gen_ow_initial_env_state e g k /\
+    e_trans W s a k = gen_ow_transition_env_state e g s a k /\
+    e_obs W s k = gen_ow_observation_value e g s k /\
+    e_rew W s a s' k = gen_ow_reward_value e g s a s' k /\
+    e_term W s k = gen_ow_terminal_value e g s k /\
+    e_trunc W s = gen_ow_truncate_value e g s /\
+    e_mask W s k = gen_ow_action_mask_value e g s k /\
+    e_tinfo W s a s' = gen_ow_transition_info_value e g s a s'.
+  Proof. repeat split; reflexivity. Qed.
+End OW.
+
+Section RW.
+  Context {S A O : Type}.
+  Variable e : env (ws S) A O.
+  Variable h : Q -> Q.
+  Notation W := (wrap1 (WRew h) e).
+
+  Theorem gen_rw_eq_model s a s' k :
+    e_init W k = gen_rw_initial_env_state e h k /\
+    e_trans W s a k = gen_rw_transition_env_state e h s a k /\
+    e_obs W s k = gen_rw_observation_value e h s k /\
+    e_rew W s a s' k = gen_rw_reward_value e h s a s' k /\
+    e_term W s k = gen_rw_terminal_value e h s k /\
+    e_trunc W s = gen_rw_truncate_value e h s /\
+    e_mask W s k = gen_rw_action_mask_value e h s k /\
+    e_tinfo W s a s' = gen_rw_transition_info_value e h s a s'.
+  Proof. repeat split; reflexivity. Qed.
+End RW.
+
+Print Assumptions gen_ow_eq_model.
+Print Assumptions gen_rw_eq_model.
 Print Assumptions gen_aw_eq_model.
 Print Assumptions gen_tl_initial_eq_model.
 Print Assumptions gen_tl_transition_eq_model.
